@@ -13,7 +13,7 @@ class Case:
         self.unwind = unwind; self.unwindset = list(unwindset); self.checks = checks; self.solvers = list(solvers)
         self.timeout = timeout; self.meta = dict(meta or {}); self.witness = witness; self.tv = tv; self.mem_gb = mem_gb
         self.extra = list(extra); self.tv_seeds = tv_seeds; self.native_defs = list(native_defs); self.replay_san = replay_san
-        self.witness_timeout = witness_timeout or timeout; self.object_bits = object_bits
+        self.witness_timeout = witness_timeout or timeout; self.object_bits = object_bits; self.cbmc = True
     def fx_defs(self):
         fx = self.fixture
         return ['VF_FIXTURE="%s"' % fx['c'], 'VF_TYPES="%s"' % fx['types']]
@@ -66,14 +66,15 @@ def replay_case(pid, case, result, bdir, extra_defs=()):
         r = run_native(exe, inputs=inputs)
         runs.append(dict(inputs=inputs, native_failed=sorted(set(r['fails'])), native_rc=r['rc'], sanitizer_report=r['san'], native_tail=r['out'][-800:]))
         got |= set(r['fails']); san = san or r['san']
+        if r['rc'] < 0 and r['rc'] != -9: got.add('native run crashed with signal %d' % -r['rc'])
         if first is None: first = r
     if not runs: return dict(reproduced=False, why='no trace in log')
     strip = lambda d: re.sub(r'^line \d+ ', '', d)
     rp = dict(property=pid, case=case.name, harness=os.path.relpath(case.harness, VERIF), fixture=case.fixture['name'],
               defs=case.defs + list(extra_defs), fixture_defs=case.fixture.get('defs', []), runs=runs,
               cbmc_failed=sorted(want), native_failed=sorted(got))
-    os.makedirs(os.path.join(VERIF, 'replays', pid), exist_ok=True)
-    path = os.path.join(VERIF, 'replays', pid, _safe(case.name) + '.json')
+    os.makedirs(os.path.join(REPLAYS, pid), exist_ok=True)
+    path = os.path.join(REPLAYS, pid, _safe(case.name) + '.json')
     json.dump(rp, open(path, 'w'), indent=1)
     rp['path'] = path
     # reproduced = the native run against the REAL object code shows a symptom: a harness assertion fails (same oracle
@@ -97,7 +98,7 @@ def execute(pid, tier, seed, cases, assumptions, extra_cov=None, budget_s=None, 
     t0 = time.time()
     only = os.environ.get('VERIF_ONLY')
     if only: cases = [c for c in cases if fnmatch.fnmatch(c.name, only)]
-    bdir = cases[0].fixture['workdir'] if cases else os.path.join(VERIF, 'build', pid)
+    bdir = cases[0].fixture['workdir'] if cases else os.path.join(BUILD, pid)
     logdir = os.path.join(bdir, 'logs')
     known = load_known()
     broken = []; violations = []; known_lines = []
@@ -118,6 +119,7 @@ def execute(pid, tier, seed, cases, assumptions, extra_cov=None, budget_s=None, 
     # ---- queries
     queries = []; qcase = {}
     for c in cases:
+        if not c.cbmc: continue
         kf = [k for k in known.get('findings', []) if k.get('property') == pid and fnmatch.fnmatch(c.name, k.get('case', '*')) and k.get('exclude_def')]
         exdefs = sorted({k['exclude_def'] for k in kf})
         c._kf = kf; c._exdefs = exdefs
@@ -152,6 +154,12 @@ def execute(pid, tier, seed, cases, assumptions, extra_cov=None, budget_s=None, 
             broken.append('unwinding assertion failed in %s (bound too small: %s)' % (r['name'], unwind_fail[:2])); continue
         exd = c._exdefs if kind == 'excl' else []
         try:
+            # the sliced formula's trace omits assignments outside the failing assertion's cone of influence, so the
+            # nondet stream would be incomplete: re-derive the counterexample without --slice-formula for the replay
+            q2 = c.query(exd, suffix=('+excl' if kind == 'excl' else '') + '+replaytrace'); q2.noslice = True
+            r2 = run_query(q2, logdir)
+            if r2.get('status') == 'fails':
+                r = dict(r); r['log'] = r2['log']; r['failed'] = r2.get('failed', r.get('failed'))
             rp = replay_case(pid, c, r, bdir, exd)
         except Broken as e:
             broken.append('replay build failed for %s: %s' % (r['name'], str(e)[:500])); continue
